@@ -51,6 +51,13 @@ def decorate(w, ops, rng, rename=0.5, ident=0.7, user=0.5, unname=0.06):
                     break
         if rng.random() < user:
             _apply_keep(w, ops, ['dset', str(i), tok_of_s(USER_KEY), 's:' + tok_of_s(rng.choice(USER_POOL))])
+        # one-bit buses ([5:5]): a port or cable with a single member that is an array all the same
+        if k in ('port', 'cable') and rng.random() < 0.3:
+            members = o.pins if k == 'port' else o.wires
+            if len(members) == 1:
+                _apply_keep(w, ops, ['scalar', str(i), '0'])
+                if rng.random() < 0.6:
+                    _apply_keep(w, ops, ['lower', str(i), str(rng.choice([0, 1, 5]))])
 
 
 def spread(w, ops, rng, p=0.6):
